@@ -39,7 +39,9 @@ use barter_execution::{
             OrderRequestCancel, OrderRequestOpen, OrderResponseCancel, RequestCancel, RequestOpen,
             UnindexedOrderResponseCancel,
         },
-        state::{ActiveOrderState, Cancelled, InactiveOrderState, Open, OrderState},
+        state::{
+            ActiveOrderState, CancelInFlight, Cancelled, InactiveOrderState, Open, OpenInFlight, OrderState,
+        },
     },
     trade::{AssetFees, Trade, TradeId},
 };
@@ -48,7 +50,21 @@ use barter_instrument::{
     asset::{Asset, AssetIndex, QuoteAsset, name::AssetNameExchange},
     exchange::{ExchangeId, ExchangeIndex},
     index::{IndexedInstruments, error::IndexError},
-    instrument::{Instrument, InstrumentIndex, name::InstrumentNameExchange},
+    instrument::{
+        Instrument, InstrumentIndex,
+        kind::{
+            InstrumentKind,
+            future::FutureContract,
+            option::{OptionContract, OptionExercise, OptionKind},
+            perpetual::PerpetualContract,
+        },
+        name::InstrumentNameExchange,
+        quote::InstrumentQuoteAsset,
+        spec::{
+            InstrumentSpec, InstrumentSpecNotional, InstrumentSpecPrice, InstrumentSpecQuantity,
+            OrderQuantityUnits,
+        },
+    },
 };
 use barter_integration::{
     channel::{Tx, mpsc_unbounded},
@@ -102,6 +118,102 @@ fn dec(p: &str) -> Decimal {
     p.parse().unwrap()
 }
 
+// ------------------------------------------------------------------------------------ payload
+//
+// Every order / request / trade / balance of an op carries ONE payload number `p` (the model's
+// opaque payload). All the fields the indexer has to carry over untouched are functions of `p`
+// that run through the whole domain of their Rust types (both sides, both order kinds, every
+// time-in-force, signed / zero / tiny / huge quantities, rebates, time stamps before / at / after
+// `t0`, free != total, an order id different from the trade id, every `ActiveOrderState` and
+// `ConnectivityError` variant, a cancel request without order id). The printers recompute them from
+// the `p` that comes back and append `!payload` when anything differs.
+
+fn pl_num(d: Decimal) -> u64 {
+    d.to_string().parse().unwrap_or(u64::MAX)
+}
+
+fn pl_side(p: u64) -> Side {
+    if p % 2 == 0 { Side::Buy } else { Side::Sell }
+}
+
+fn pl_kind(p: u64) -> OrderKind {
+    if (p / 2) % 2 == 0 { OrderKind::Limit } else { OrderKind::Market }
+}
+
+fn pl_tif(p: u64) -> TimeInForce {
+    match (p / 4) % 5 {
+        0 => TimeInForce::GoodUntilCancelled { post_only: false },
+        1 => TimeInForce::GoodUntilCancelled { post_only: true },
+        2 => TimeInForce::GoodUntilEndOfDay,
+        3 => TimeInForce::FillOrKill,
+        _ => TimeInForce::ImmediateOrCancel,
+    }
+}
+
+fn pl_qty(p: u64) -> Decimal {
+    dec(["1", "0", "0.5", "-1", "0.00000001", "1000000000000", "-2.5"][((p / 20) % 7) as usize])
+}
+
+/// three seconds before `t0` … three seconds after it (equal to `t0` when `p % 7 == 3`)
+fn pl_time(p: u64) -> DateTime<Utc> {
+    t0() + chrono::Duration::seconds((p % 7) as i64 - 3)
+}
+
+fn pl_fees(p: u64) -> Decimal {
+    dec(["0", "0.1", "-0.2", "2.5", "-1"][((p / 3) % 5) as usize])
+}
+
+/// free balance: equal to the total for every fourth `p`, else below it (negative for small `p`)
+fn pl_free(p: u64) -> Decimal {
+    if p % 4 == 0 {
+        Decimal::from(p)
+    } else {
+        Decimal::from(p) / Decimal::from(2u64) - Decimal::from(p % 4)
+    }
+}
+
+fn pl_filled(p: u64) -> Decimal {
+    Decimal::from(p) / Decimal::from(2u64)
+}
+
+fn pl_open(id: &str) -> Open {
+    let p: u64 = id.parse().unwrap();
+    Open::new(OrderId::new(id), pl_time(p), pl_filled(p))
+}
+
+/// `act <id>`: 7 = `OpenInFlight`, 8 = `CancelInFlight` without order, 6 = `CancelInFlight` with the
+/// open order 6, everything else the open order `<id>`
+fn pl_active(id: &str) -> ActiveOrderState {
+    match id {
+        "7" => ActiveOrderState::OpenInFlight(OpenInFlight),
+        "8" => ActiveOrderState::CancelInFlight(CancelInFlight { order: None }),
+        "6" => ActiveOrderState::CancelInFlight(CancelInFlight { order: Some(pl_open(id)) }),
+        _ => ActiveOrderState::Open(pl_open(id)),
+    }
+}
+
+fn pl_cancelled(id: &str) -> Cancelled {
+    Cancelled::new(OrderId::new(id), pl_time(id.parse().unwrap()))
+}
+
+/// `conn`: which connectivity error is a function of the surrounding order's payload / cid (`salt`)
+fn pl_conn(salt: u64) -> ConnectivityError {
+    match salt % 3 {
+        0 => ConnectivityError::Timeout,
+        1 => ConnectivityError::ExchangeOffline(EXCHANGES[(salt % 5) as usize]),
+        _ => ConnectivityError::Socket(format!("socket{salt}")),
+    }
+}
+
+fn pl_msg(salt: u64) -> String {
+    format!("x{salt}")
+}
+
+/// order id of a cancel request: absent for payload 0
+fn pl_cancel_id(p: &str) -> Option<OrderId> {
+    if p == "0" { None } else { Some(OrderId::new(p)) }
+}
+
 // ------------------------------------------------------------------------------------ parsing
 
 struct Cur<'a> {
@@ -131,23 +243,23 @@ impl<'a> Cur<'a> {
     }
 }
 
-fn p_api(c: &mut Cur) -> UnindexedApiError {
+fn p_api(c: &mut Cur, salt: u64) -> UnindexedApiError {
     match c.next() {
         "rate" => ApiError::RateLimit,
-        "ainv" => ApiError::AssetInvalid(AssetNameExchange::new(c.num()), "x".into()),
-        "iinv" => ApiError::InstrumentInvalid(InstrumentNameExchange::new(c.num()), "x".into()),
-        "bins" => ApiError::BalanceInsufficient(AssetNameExchange::new(c.num()), "x".into()),
-        "orej" => ApiError::OrderRejected("x".into()),
+        "ainv" => ApiError::AssetInvalid(AssetNameExchange::new(c.num()), pl_msg(salt)),
+        "iinv" => ApiError::InstrumentInvalid(InstrumentNameExchange::new(c.num()), pl_msg(salt)),
+        "bins" => ApiError::BalanceInsufficient(AssetNameExchange::new(c.num()), pl_msg(salt)),
+        "orej" => ApiError::OrderRejected(pl_msg(salt)),
         "acanc" => ApiError::OrderAlreadyCancelled,
         "afill" => ApiError::OrderAlreadyFullyFilled,
         o => panic!("bad api {o}"),
     }
 }
 
-fn p_oerr(c: &mut Cur) -> UnindexedOrderError {
+fn p_oerr(c: &mut Cur, salt: u64) -> UnindexedOrderError {
     match c.next() {
-        "conn" => OrderError::Connectivity(ConnectivityError::Timeout),
-        "rej" => OrderError::Rejected(p_api(c)),
+        "conn" => OrderError::Connectivity(pl_conn(salt)),
+        "rej" => OrderError::Rejected(p_api(c, salt)),
         o => panic!("bad oerr {o}"),
     }
 }
@@ -164,13 +276,13 @@ fn p_key(c: &mut Cur) -> OrderKey<ExchangeId, InstrumentNameExchange> {
     }
 }
 
-fn p_state(c: &mut Cur) -> OrderState<AssetNameExchange, InstrumentNameExchange> {
+fn p_state(c: &mut Cur, salt: u64) -> OrderState<AssetNameExchange, InstrumentNameExchange> {
     match c.next() {
-        "act" => OrderState::active(Open::new(OrderId::new(c.num()), t0(), Decimal::ZERO)),
-        "canc" => OrderState::inactive(Cancelled::new(OrderId::new(c.num()), t0())),
+        "act" => OrderState::Active(pl_active(c.num())),
+        "canc" => OrderState::inactive(pl_cancelled(c.num())),
         "full" => OrderState::fully_filled(),
         "exp" => OrderState::expired(),
-        "fail" => OrderState::inactive(p_oerr(c)),
+        "fail" => OrderState::inactive(p_oerr(c, salt)),
         o => panic!("bad state {o}"),
     }
 }
@@ -178,23 +290,25 @@ fn p_state(c: &mut Cur) -> OrderState<AssetNameExchange, InstrumentNameExchange>
 fn p_order(c: &mut Cur) -> UnindexedOrderSnapshot {
     let key = p_key(c);
     let p = c.num();
-    let state = p_state(c);
+    let n: u64 = p.parse().unwrap();
+    let state = p_state(c, n);
     Order {
         key,
-        side: Side::Buy,
+        side: pl_side(n),
         price: dec(p),
-        quantity: Decimal::ONE,
-        kind: OrderKind::Limit,
-        time_in_force: TimeInForce::GoodUntilCancelled { post_only: false },
+        quantity: pl_qty(n),
+        kind: pl_kind(n),
+        time_in_force: pl_tif(n),
         state,
     }
 }
 
 fn p_cresp(c: &mut Cur) -> UnindexedOrderResponseCancel {
     let key = p_key(c);
+    let salt: u64 = key.cid.0.parse().unwrap();
     let state = match c.next() {
-        "ok" => Ok(Cancelled::new(OrderId::new(c.num()), t0())),
-        "err" => Err(p_oerr(c)),
+        "ok" => Ok(pl_cancelled(c.num())),
+        "err" => Err(p_oerr(c, salt)),
         o => panic!("bad cresp {o}"),
     };
     OrderResponseCancel { key, state }
@@ -203,29 +317,30 @@ fn p_cresp(c: &mut Cur) -> UnindexedOrderResponseCancel {
 fn p_trade(c: &mut Cur) -> Trade<QuoteAsset, InstrumentNameExchange> {
     let instrument = InstrumentNameExchange::new(c.num());
     let p = c.num();
+    let n: u64 = p.parse().unwrap();
     Trade {
         id: TradeId::new(p),
-        order_id: OrderId::new(p),
+        order_id: OrderId::new((n + 1).to_string()),
         instrument,
         strategy: strategy_of(p),
-        time_exchange: t0(),
-        side: Side::Sell,
+        time_exchange: pl_time(n),
+        side: pl_side(n),
         price: dec(p),
-        quantity: Decimal::ONE,
+        quantity: pl_qty(n),
         fees: AssetFees {
             asset: QuoteAsset,
-            fees: Decimal::ZERO,
+            fees: pl_fees(n),
         },
     }
 }
 
 fn p_bal(c: &mut Cur) -> AssetBalance<AssetNameExchange> {
     let asset = AssetNameExchange::new(c.num());
-    let p = dec(c.num());
+    let n: u64 = c.num().parse().unwrap();
     AssetBalance {
         asset,
-        balance: Balance::new(p, p),
-        time_exchange: t0(),
+        balance: Balance::new(Decimal::from(n), pl_free(n)),
+        time_exchange: pl_time(n),
     }
 }
 
@@ -264,22 +379,24 @@ fn p_event(c: &mut Cur) -> UnindexedAccountEvent {
 
 // ------------------------------------------------------------------------------------ printing
 
-fn s_api(e: &ApiError) -> String {
+fn s_api(e: &ApiError, salt: u64) -> String {
+    let msg = |m: &String| if *m == pl_msg(salt) { "" } else { "!payload" };
     match e {
         ApiError::RateLimit => "rate".into(),
-        ApiError::AssetInvalid(a, _) => format!("ainv {}", a.0),
-        ApiError::InstrumentInvalid(i, _) => format!("iinv {}", i.0),
-        ApiError::BalanceInsufficient(a, _) => format!("bins {}", a.0),
-        ApiError::OrderRejected(_) => "orej".into(),
+        ApiError::AssetInvalid(a, m) => format!("ainv {}{}", a.0, msg(m)),
+        ApiError::InstrumentInvalid(i, m) => format!("iinv {}{}", i.0, msg(m)),
+        ApiError::BalanceInsufficient(a, m) => format!("bins {}{}", a.0, msg(m)),
+        ApiError::OrderRejected(m) => format!("orej{}", msg(m)),
         ApiError::OrderAlreadyCancelled => "acanc".into(),
         ApiError::OrderAlreadyFullyFilled => "afill".into(),
     }
 }
 
-fn s_oerr(e: &OrderError) -> String {
+fn s_oerr(e: &OrderError, salt: u64) -> String {
     match e {
-        OrderError::Connectivity(_) => "conn".into(),
-        OrderError::Rejected(a) => format!("rej {}", s_api(a)),
+        OrderError::Connectivity(c) if *c == pl_conn(salt) => "conn".into(),
+        OrderError::Connectivity(_) => "conn!payload".into(),
+        OrderError::Rejected(a) => format!("rej {}", s_api(a, salt)),
     }
 }
 
@@ -292,23 +409,35 @@ fn s_key(k: &OrderKey) -> String {
     )
 }
 
-fn s_state(s: &OrderState) -> String {
+fn s_cancelled(c: &Cancelled) -> String {
+    let ok = c.id.0.parse::<u64>().is_ok() && *c == pl_cancelled(&c.id.0);
+    format!("{}{}", c.id.0, if ok { "" } else { "!payload" })
+}
+
+fn s_state(s: &OrderState, salt: u64) -> String {
     match s {
-        OrderState::Active(ActiveOrderState::Open(o)) => format!("act {}", o.id.0),
-        OrderState::Active(other) => format!("unexpected-active-{other:?}"),
-        OrderState::Inactive(InactiveOrderState::Cancelled(c)) => format!("canc {}", c.id.0),
+        OrderState::Active(a) => {
+            // the id the op named: the open order's, or the fixed one of a variant without order
+            let id = match a {
+                ActiveOrderState::OpenInFlight(_) => "7".to_string(),
+                ActiveOrderState::CancelInFlight(CancelInFlight { order: None }) => "8".into(),
+                ActiveOrderState::CancelInFlight(CancelInFlight { order: Some(o) }) => o.id.0.to_string(),
+                ActiveOrderState::Open(o) => o.id.0.to_string(),
+            };
+            let ok = id.parse::<u64>().is_ok() && *a == pl_active(&id);
+            format!("act {id}{}", if ok { "" } else { "!payload" })
+        }
+        OrderState::Inactive(InactiveOrderState::Cancelled(c)) => format!("canc {}", s_cancelled(c)),
         OrderState::Inactive(InactiveOrderState::FullyFilled) => "full".into(),
         OrderState::Inactive(InactiveOrderState::Expired) => "exp".into(),
-        OrderState::Inactive(InactiveOrderState::OpenFailed(e)) => format!("fail {}", s_oerr(e)),
+        OrderState::Inactive(InactiveOrderState::OpenFailed(e)) => format!("fail {}", s_oerr(e, salt)),
     }
 }
 
 /// everything the indexer must carry over untouched, beyond the price that is printed
 fn order_rest_ok(o: &OrderSnapshot) -> bool {
-    o.side == Side::Buy
-        && o.quantity == Decimal::ONE
-        && o.kind == OrderKind::Limit
-        && o.time_in_force == TimeInForce::GoodUntilCancelled { post_only: false }
+    let p = pl_num(o.price);
+    o.side == pl_side(p) && o.quantity == pl_qty(p) && o.kind == pl_kind(p) && o.time_in_force == pl_tif(p)
 }
 
 fn s_order(o: &OrderSnapshot) -> String {
@@ -317,26 +446,28 @@ fn s_order(o: &OrderSnapshot) -> String {
         s_key(&o.key),
         o.price,
         if order_rest_ok(o) { "" } else { "!payload" },
-        s_state(&o.state)
+        s_state(&o.state, pl_num(o.price))
     )
 }
 
 fn s_cresp(r: &OrderResponseCancel) -> String {
+    let salt = r.key.cid.0.parse().unwrap_or(u64::MAX);
     match &r.state {
-        Ok(c) => format!("{} ok {}", s_key(&r.key), c.id.0),
-        Err(e) => format!("{} err {}", s_key(&r.key), s_oerr(e)),
+        Ok(c) => format!("{} ok {}", s_key(&r.key), s_cancelled(c)),
+        Err(e) => format!("{} err {}", s_key(&r.key), s_oerr(e, salt)),
     }
 }
 
 fn s_trade(t: &Trade<QuoteAsset, InstrumentIndex>) -> String {
     let p = t.price.to_string();
+    let n = pl_num(t.price);
     let rest_ok = t.id == TradeId::new(&p)
-        && t.order_id == OrderId::new(&p)
+        && t.order_id == OrderId::new(n.wrapping_add(1).to_string())
         && t.strategy == strategy_of(&p)
-        && t.time_exchange == t0()
-        && t.side == Side::Sell
-        && t.quantity == Decimal::ONE
-        && t.fees.fees == Decimal::ZERO;
+        && t.time_exchange == pl_time(n)
+        && t.side == pl_side(n)
+        && t.quantity == pl_qty(n)
+        && t.fees.fees == pl_fees(n);
     format!(
         "{} {}{}",
         t.instrument.0,
@@ -346,7 +477,8 @@ fn s_trade(t: &Trade<QuoteAsset, InstrumentIndex>) -> String {
 }
 
 fn s_bal(b: &AssetBalance<AssetIndex>) -> String {
-    let rest_ok = b.balance.free == b.balance.total && b.time_exchange == t0();
+    let n = pl_num(b.balance.total);
+    let rest_ok = b.balance.free == pl_free(n) && b.time_exchange == pl_time(n);
     format!(
         "{} {}{}",
         b.asset.0,
@@ -391,6 +523,7 @@ fn res_idx<T>(lines: &mut Vec<String>, r: Result<T, IndexError>, f: impl Fn(&T) 
 // ------------------------------------------------------------------------------------ requests
 
 fn request_open(x: usize, i: usize, cid: &str, p: &str) -> OrderRequestOpen {
+    let n: u64 = p.parse().unwrap();
     OrderEvent {
         key: OrderKey {
             exchange: ExchangeIndex(x),
@@ -399,11 +532,11 @@ fn request_open(x: usize, i: usize, cid: &str, p: &str) -> OrderRequestOpen {
             cid: ClientOrderId::new(cid),
         },
         state: RequestOpen {
-            side: Side::Buy,
+            side: pl_side(n),
             price: dec(p),
-            quantity: Decimal::ONE,
-            kind: OrderKind::Limit,
-            time_in_force: TimeInForce::GoodUntilCancelled { post_only: false },
+            quantity: pl_qty(n),
+            kind: pl_kind(n),
+            time_in_force: pl_tif(n),
         },
     }
 }
@@ -416,17 +549,16 @@ fn request_cancel(x: usize, i: usize, cid: &str, p: &str) -> OrderRequestCancel 
             strategy: strategy_of(cid),
             cid: ClientOrderId::new(cid),
         },
-        state: RequestCancel {
-            id: Some(OrderId::new(p)),
-        },
+        state: RequestCancel { id: pl_cancel_id(p) },
     }
 }
 
 fn s_client_open(r: &OrderRequestOpen<ExchangeId, &InstrumentNameExchange>) -> String {
-    let rest_ok = r.state.side == Side::Buy
-        && r.state.quantity == Decimal::ONE
-        && r.state.kind == OrderKind::Limit
-        && r.state.time_in_force == TimeInForce::GoodUntilCancelled { post_only: false };
+    let n = pl_num(r.state.price);
+    let rest_ok = r.state.side == pl_side(n)
+        && r.state.quantity == pl_qty(n)
+        && r.state.kind == pl_kind(n)
+        && r.state.time_in_force == pl_tif(n);
     format!(
         "{} {} {} open {}{}",
         label(r.key.exchange),
@@ -443,7 +575,12 @@ fn s_client_cancel(r: &OrderRequestCancel<ExchangeId, &InstrumentNameExchange>) 
         label(r.key.exchange),
         r.key.instrument.name(),
         cid_tok(&r.key.strategy, &r.key.cid),
-        r.state.id.as_ref().map(|id| id.0.to_string()).unwrap_or("none".into())
+        // payload 0 = a cancel request without order id
+        match &r.state.id {
+            None => "0".to_string(),
+            Some(id) if id.0 == "0" => "0!payload".into(),
+            Some(id) => id.0.to_string(),
+        }
     )
 }
 
@@ -861,20 +998,79 @@ struct Def {
     inst_name: String,
     base: (String, String),
     quote: (String, String),
+    /// an asset of the exchange that need not be the base or quote of any instrument
+    /// (`E` section of the `build` op): kind 1 / 2 / 3 = settlement asset of a perpetual / future /
+    /// option, 4 = the quantity unit of a spot instrument's `InstrumentSpec`
+    extra: Option<(u8, String, String)>,
 }
 
 fn build(defs: &[Def]) -> IndexedInstruments {
     let mut b = IndexedInstruments::builder();
     for d in defs {
-        b = b.add_instrument(Instrument::spot(
+        let underlying = Underlying::new(
+            Asset::new(d.base.0.as_str(), d.base.1.as_str()),
+            Asset::new(d.quote.0.as_str(), d.quote.1.as_str()),
+        );
+        let Some((kind, a_internal, a_name)) = &d.extra else {
+            b = b.add_instrument(Instrument::spot(
+                EXCHANGES[d.ex],
+                d.inst_internal.as_str(),
+                d.inst_name.as_str(),
+                underlying,
+                None,
+            ));
+            continue;
+        };
+        let extra = Asset::new(a_internal.as_str(), a_name.as_str());
+        let (kind, spec) = match kind {
+            1 => (
+                InstrumentKind::Perpetual(PerpetualContract {
+                    contract_size: Decimal::ONE,
+                    settlement_asset: extra,
+                }),
+                None,
+            ),
+            2 => (
+                InstrumentKind::Future(FutureContract {
+                    contract_size: Decimal::ONE,
+                    settlement_asset: extra,
+                    expiry: t0(),
+                }),
+                None,
+            ),
+            3 => (
+                InstrumentKind::Option(OptionContract {
+                    contract_size: Decimal::ONE,
+                    settlement_asset: extra,
+                    kind: OptionKind::Put,
+                    exercise: OptionExercise::European,
+                    expiry: t0(),
+                    strike: Decimal::TEN,
+                }),
+                None,
+            ),
+            4 => (
+                InstrumentKind::Spot,
+                Some(InstrumentSpec {
+                    price: InstrumentSpecPrice { min: Decimal::ONE, tick_size: Decimal::ONE },
+                    quantity: InstrumentSpecQuantity {
+                        unit: OrderQuantityUnits::Asset(extra),
+                        min: Decimal::ONE,
+                        increment: Decimal::ONE,
+                    },
+                    notional: InstrumentSpecNotional { min: Decimal::ONE },
+                }),
+            ),
+            o => panic!("bad op: extra asset kind {o}"),
+        };
+        b = b.add_instrument(Instrument::new(
             EXCHANGES[d.ex],
             d.inst_internal.as_str(),
             d.inst_name.as_str(),
-            Underlying::new(
-                Asset::new(d.base.0.as_str(), d.base.1.as_str()),
-                Asset::new(d.quote.0.as_str(), d.quote.1.as_str()),
-            ),
-            None,
+            underlying,
+            InstrumentQuoteAsset::UnderlyingQuote,
+            kind,
+            spec,
         ));
     }
     b.build()
@@ -1081,12 +1277,12 @@ fn run() {
             lines.push("@".into());
             match op[0].as_str() {
                 "build" => {
-                    // `build D <n> {7 tokens}* X ...`: only the definitions are read here; the
+                    // `build D <n> {7 tokens}* [E <m> {4 tokens}*] X ...`: only the definitions are read here; the
                     // tables that follow are what the generator saw the builder produce and are
                     // re-derived (and printed) from the real builder below
                     assert!(op[1] == "D", "bad build");
                     let n: usize = op[2].parse().unwrap();
-                    let defs: Vec<Def> = (0..n)
+                    let mut defs: Vec<Def> = (0..n)
                         .map(|j| {
                             let t = &op[3 + 7 * j..10 + 7 * j];
                             Def {
@@ -1095,10 +1291,24 @@ fn run() {
                                 inst_name: t[2].clone(),
                                 base: (t[3].clone(), t[4].clone()),
                                 quote: (t[5].clone(), t[6].clone()),
+                                extra: None,
                             }
                         })
                         .collect();
-                    assert!(op[3 + 7 * n] == "X", "bad build");
+                    let mut k = 3 + 7 * n;
+                    if op[k] == "E" {
+                        let m: usize = op[k + 1].parse().unwrap();
+                        for j in 0..m {
+                            let t = &op[k + 2 + 4 * j..k + 6 + 4 * j];
+                            let pos: usize = t[0].parse().unwrap();
+                            assert!(defs[pos].extra.is_none(), "bad build: two extra assets");
+                            t[2].parse::<u64>().expect("bad build");
+                            t[3].parse::<u64>().expect("bad build");
+                            defs[pos].extra = Some((t[1].parse().unwrap(), t[2].clone(), t[3].clone()));
+                        }
+                        k += 2 + 4 * m;
+                    }
+                    assert!(op[k] == "X", "bad build");
                     let ii = build(&defs);
                     lines.extend(table_lines(&ii));
                     built = Some(ii);
@@ -1138,6 +1348,16 @@ fn build_op(defs: &[Def], ii: &IndexedInstruments) -> String {
     let mut t = vec!["build".to_string(), "D".into(), defs.len().to_string()];
     for d in defs {
         t.push(def_op(d));
+    }
+    let extras: Vec<String> = defs
+        .iter()
+        .enumerate()
+        .filter_map(|(j, d)| d.extra.as_ref().map(|(k, i, n)| format!("{j} {k} {i} {n}")))
+        .collect();
+    if !extras.is_empty() {
+        t.push("E".into());
+        t.push(extras.len().to_string());
+        t.extend(extras);
     }
     t.push("X".into());
     t.push(ii.exchanges().len().to_string());
@@ -1521,6 +1741,7 @@ fn random_defs(rng: &mut Rng) -> Vec<Def> {
                 inst_name: name.to_string(),
                 base: ((base + 1).to_string(), perm[base].to_string()),
                 quote: ((quote + 1).to_string(), perm[quote].to_string()),
+                extra: None,
             });
         }
     }
@@ -1537,10 +1758,140 @@ fn random_defs(rng: &mut Rng) -> Vec<Def> {
             inst_name: d.inst_name.clone(),
             base: d.base.clone(),
             quote: d.quote.clone(),
+            extra: d.extra.clone(),
         };
         defs.push(dup);
     }
     defs
+}
+
+fn shuffle<T>(rng: &mut Rng, v: &mut [T]) {
+    for k in 0..v.len() {
+        let j = k + rng.below((v.len() - k) as u64) as usize;
+        v.swap(k, j);
+    }
+}
+
+/// Collections of the input-domain family (`d<k>` cases, own seed). `class`:
+/// 0 all FIVE exchanges; 1 exchanges owning assets that are no instrument's base or quote
+/// (settlement asset of a perpetual / future / option, quantity unit of a spec); 2 instruments
+/// whose base IS their quote, exchanges with a single asset; 3 large: one exchange with 30-60
+/// instruments over 12 assets, multi-digit names (1, 10, 11, 100, … so that one name is a prefix of
+/// another); 4 an ordinary collection (the ops of the case carry the boundary payloads); 5 all of it.
+/// Names are unique per exchange (inside `WF`), so the spec driver speaks on every link.
+fn domain_defs(rng: &mut Rng, class: usize) -> Vec<Def> {
+    let five = class == 0 || class == 5;
+    let extras = class == 1 || class == 5;
+    let same = class == 2 || class == 5;
+    let big = class == 3;
+    let n_ex = if five { 5 } else { rng.range(2, 3) as usize };
+    let mut labels: Vec<usize> = (0..EXCHANGES.len()).collect();
+    shuffle(rng, &mut labels);
+    labels.truncate(n_ex);
+    let n_assets = if big { 12 } else { 6 };
+    let mut defs = vec![];
+    for (pos, &ex) in labels.iter().enumerate() {
+        // internal name a (1..=n_assets) -> exchange name perm[a - 1]; big: 1, 10, 11, 100, 101, ...
+        let mut perm: Vec<u64> = if big {
+            vec![1, 10, 11, 100, 101, 110, 111, 2, 20, 21, 200, 12, 120]
+        } else {
+            (1..=n_assets as u64 + 1).collect()
+        };
+        shuffle(rng, &mut perm);
+        let n_inst = if big && pos == 0 {
+            rng.range(30, 60) as usize
+        } else if same && rng.chance(30) {
+            1
+        } else {
+            rng.range(1, if five { 3 } else { 5 }) as usize
+        };
+        let mut names: Vec<u64> = if big {
+            (0..80u64).map(|j| [1, 10, 100, 1000][(j % 4) as usize] + j / 4).collect()
+        } else {
+            (1..=7).collect()
+        };
+        names.sort();
+        names.dedup();
+        shuffle(rng, &mut names);
+        let single = same && n_inst == 1;
+        for j in 0..n_inst {
+            // the underlying pool is the first four internal names; 5.. are only ever extra assets
+            let pool = if big { n_assets as u64 } else { 4 };
+            let base = rng.below(pool) as usize;
+            let mut quote = rng.below(pool) as usize;
+            if single || (same && rng.chance(35)) {
+                quote = base;
+            } else if quote == base {
+                quote = (base + 1) % pool as usize;
+            }
+            let extra = if extras && rng.chance(60) {
+                // mostly an asset nothing else on the exchange names; sometimes a shared one
+                let a = if rng.chance(75) { 4 + rng.below(2) as usize } else { rng.below(4) as usize };
+                Some((rng.range(1, 4) as u8, (a + 1).to_string(), perm[a].to_string()))
+            } else {
+                None
+            };
+            defs.push(Def {
+                ex,
+                inst_internal: format!("{}", ex * 100 + j),
+                inst_name: names[j].to_string(),
+                base: ((base + 1).to_string(), perm[base].to_string()),
+                quote: ((quote + 1).to_string(), perm[quote].to_string()),
+                extra,
+            });
+        }
+    }
+    shuffle(rng, &mut defs);
+    defs
+}
+
+/// The ops of a `d` case: the complete sweep, random ops, route ops, and the boundary payloads the
+/// random draw (p below 1000) meets too rarely: payload 0 (= cancel request WITHOUT order id), the
+/// three non-`Open` active states, every payload class on own keys, and indices at the top of
+/// `usize` on every index-taking op.
+fn domain_ops(out: &mut Out, rng: &mut Rng, ii: &IndexedInstruments, n_ops: usize) {
+    sweep(out, ii, &[0, 1, 2, 3, 4]);
+    random_ops(out, rng, ii, n_ops);
+    route_ops(out, rng, ii, 2);
+    let present = present_labels(ii);
+    let max = usize::MAX;
+    for (x, &e) in present.iter().enumerate() {
+        let p = pools(ii, e);
+        let own: Vec<usize> = ii
+            .instruments()
+            .iter()
+            .filter(|k| k.value.exchange.key.0 == x)
+            .map(|k| k.key.0)
+            .collect();
+        let i = *rng.pick(&own);
+        let cid = rng.below(50);
+        out.line(format!("oreq {e} {x} {i} {cid} cancel 0"));
+        out.line(format!("mgr {e} cancel {x} {i} {cid} 0"));
+        out.line(format!("oreq {e} {x} {i} {cid} open 0"));
+        let adds = adds_tok(&present);
+        out.line(format!("route {adds} cancel {x} {i} {cid} 0"));
+        let iname = rng.pick(&p.inames_own).clone();
+        let aname = rng.pick(&p.anames_own).clone();
+        for id in [6u64, 7, 8, 0] {
+            let pay = *rng.pick(&[0u64, 1, 2, 3, 21, 62, 83, 104, 125, 999]);
+            out.line(format!("ev {e} {e} O {e} {iname} {cid} {pay} act {id}"));
+            out.line(format!("ev {e} {e} S {e} 1 {aname} {pay} 1 {iname} 1 {e} {iname} {cid} {pay} act {id}"));
+        }
+        for salt in 0..3u64 {
+            out.line(format!("ev {e} {e} O {e} {iname} {cid} {salt} fail conn"));
+            out.line(format!("ev {e} {e} C {e} {iname} {salt} err conn"));
+        }
+        out.line(format!("trade {e} {iname} {}", rng.pick(&[0u64, 1, 61, 63, 86, 101, 124])));
+        out.line(format!("bal {e} {aname} {}", rng.pick(&[0u64, 1, 2, 3, 4, 7])));
+        // indices at the top of usize
+        out.line(format!("fexid {e} {max}"));
+        out.line(format!("fan {e} {max}"));
+        out.line(format!("fin {e} {max}"));
+        out.line(format!("oreq {e} {max} {i} {cid} open 5"));
+        out.line(format!("oreq {e} {x} {max} {cid} cancel 5"));
+        out.line(format!("route {adds} open {max} {i} {cid} 5"));
+        out.line(format!("route {adds} open {x} {max} {cid} 5"));
+    }
 }
 
 fn emit_case(out: &mut Out, id: String, defs: &[Def], body: impl FnOnce(&mut Out, &IndexedInstruments)) {
@@ -1589,6 +1940,7 @@ fn generate(seed: u64, n_cases: usize, tier: &str) {
                                 inst_name: name.to_string(),
                                 base: (b.into(), b.into()),
                                 quote: (q.into(), q.into()),
+                                extra: None,
                             });
                         }
                     }
@@ -1663,6 +2015,14 @@ fn generate(seed: u64, n_cases: usize, tier: &str) {
                 random_ops(out, &mut r2, ii, 10);
             }
         });
+    }
+    // input-domain family: its own seed, so the random cases above stay what they were
+    let mut rd = Rng::new(seed ^ 0xD04A_1C04);
+    for k in 0..(n_cases / 6).max(6) {
+        let defs = domain_defs(&mut rd, k % 6);
+        let mut r2 = rd.fork();
+        let n_ops = if tier == "thorough" { 30 } else { 20 };
+        emit_case(&mut out, format!("d{}", k + 1), &defs, |out, ii| domain_ops(out, &mut r2, ii, n_ops));
     }
     out.flush();
 }
